@@ -289,3 +289,114 @@ Proof.
   rewrite Q. destruct (IH (fun x Hx => H x (or_intror Hx))) as [t' Et].
   destruct (ie_basis e) as [y|]; [destruct (idx_eqb y (b_idx b))|]; cbn [bind]; rewrite Et; cbn [bind]; eexists; reflexivity.
 Qed.
+
+(** * Invariants for totality *)
+Definition stat_inv (s : state) (C : list block) : Prop :=
+  forall c st, alookup c (contracts s) = Some st -> st = cstat C c.
+Definition elems_known (s : state) : Prop := forall e, In e (celems s) -> known s (ce_cid e) = true.
+
+Lemma known_aset s c st c' : known s c' = true ->
+  match alookup c' (aset c st (contracts s)) with Some _ => true | None => false end = true.
+Proof.
+  unfold known. intros H. destruct (N.eq_dec c' c) as [->|Hne].
+  - rewrite alookup_aset_same. reflexivity.
+  - rewrite alookup_aset_other by exact Hne. exact H.
+Qed.
+
+Lemma apply_event_known b s e s' : elems_known s -> apply_event b s e = Ok s' ->
+  elems_known s' /\ (forall c, known s c = true -> known s' c = true).
+Proof.
+  intros EK. unfold apply_event. destruct e as [c0 rv|c0 o nw|c0 k].
+  - destruct (alookup c0 (contracts s)) as [st|] eqn:L; [|intros [= <-]; split; auto].
+    assert (forall cs', (forall c, known s c = true -> match alookup c cs' with Some _ => true | None => false end = true) ->
+              elems_known (set_c s cs' (cset c0 {| ce_cid := c0; ce_basis := Some (b_idx b); ce_born := b_idx b; ce_rev := rv |} (celems s)))) as G.
+    { intros cs' Hk x Hx. cbn in Hx. unfold known. cbn [contracts set_c]. destruct Hx as [<-|Hx].
+      - cbn. apply Hk. unfold known. rewrite L. reflexivity.
+      - apply filter_In in Hx. apply Hk. apply EK. tauto. }
+    destruct st; intros [= <-]; (split; [apply G|]); unfold known; cbn [contracts set_c]; auto; intros c; apply known_aset.
+  - destruct (known s c0); intros [= <-]; (split; [|auto]); [|exact EK].
+    intros x Hx. cbn in Hx. unfold crev in Hx. apply in_map_iff in Hx. destruct Hx as [x0 [E Hx0]].
+    unfold known. cbn [contracts set_c]. specialize (EK x0 Hx0). unfold known in EK.
+    destruct (ce_cid x0 =? c0)%N; subst x; cbn; exact EK.
+  - destruct (alookup c0 (contracts s)) as [st|] eqn:L; [|intros [= <-]; split; auto].
+    destruct (cstatus_eqb st (kstatus k)); [intros [= <-]; split; auto|].
+    destruct st; try discriminate. intros [= <-]. split.
+    + intros x Hx. cbn in Hx. unfold known. cbn [contracts set_c]. apply known_aset. apply EK. exact Hx.
+    + intros c. unfold known at 2. cbn [contracts set_c]. apply known_aset.
+Qed.
+
+Lemma apply_events_known b : forall evs s s', elems_known s -> fold_res (apply_event b) evs s = Ok s' ->
+  elems_known s'.
+Proof.
+  induction evs as [|e t IH]; intros s s' EK; cbn [fold_res]; [intros [= <-]; exact EK|].
+  destruct (apply_event b s e) as [s1| |] eqn:E; cbn [bind]; try discriminate. intros H.
+  exact (IH s1 s' (proj1 (apply_event_known b s e s1 EK E)) H).
+Qed.
+
+Lemma known_of_status s s' : (forall c, (alookup c (contracts s') = None <-> alookup c (contracts s) = None)) ->
+  forall c, known s' c = known s c.
+Proof.
+  intros H c. unfold known. specialize (H c).
+  destruct (alookup c (contracts s')), (alookup c (contracts s)); auto.
+  - destruct H as [_ H]. discriminate (H eq_refl).
+  - destruct H as [H _]. discriminate (H eq_refl).
+Qed.
+
+Lemma stat_after_none f evs s c : stat_after f evs s c = None <-> alookup c (contracts s) = None.
+Proof. unfold stat_after. destruct (alookup c (contracts s)); split; congruence. Qed.
+
+(** * One block never fails on a lifecycle-conforming chain *)
+Lemma apply_block_total s C b : linked (b :: C) -> lifecycle_ok (b :: C) -> stat_inv s C -> elems_known s ->
+  exists s', apply_block s b = Ok s' /\ stat_inv s' (b :: C) /\ elems_known s'.
+Proof.
+  intros L LC SI EK. cbn [lifecycle_ok] in LC. destruct LC as [_ [ND V]].
+  destruct (apply_events_status b (grouped (b_events b)) s ND) as [s1 [E1 S1]].
+  { intros e He st Hst. rewrite (SI _ _ Hst). apply V. exact He. }
+  unfold apply_block. rewrite E1. cbn [bind]. eexists. split; [reflexivity|]. split.
+  - intros c st. cbn [contracts]. rewrite S1. unfold stat_after.
+    destruct (alookup c (contracts s)) as [st0|] eqn:L0; [|discriminate].
+    intros [= <-]. cbn [cstat]. rewrite (SI _ _ L0). reflexivity.
+  - pose proof (apply_events_known b _ s s1 EK E1) as EK1.
+    intros x Hx. cbn [celems] in Hx. unfold cupd_apply in Hx. apply in_map_iff in Hx.
+    destruct Hx as [x0 [<- Hx0]]. unfold known. cbn. apply (EK1 x0 Hx0).
+Qed.
+
+Lemma revert_block_total s C b : linked (b :: C) -> lifecycle_ok (b :: C) -> el_inv s (b :: C) ->
+  stat_inv s (b :: C) -> elems_known s ->
+  exists s', revert_block s b = Ok s' /\ stat_inv s' C /\ elems_known s'.
+Proof.
+  intros L LC EI SI EK. pose proof LC as LC'. cbn [lifecycle_ok] in LC'. destruct LC' as [_ [ND V]].
+  set (evs := grouped (b_events b)) in *.
+  destruct (revert_events_status evs s ND) as [s1 [E1 S1]].
+  { intros e He st Hst. rewrite (SI _ _ Hst). cbn [cstat]. fold evs.
+    rewrite (ev_of_in (ev_cid e) evs e ND He eq_refl). specialize (V e He).
+    destruct e; cbn in *; auto. }
+  destruct (revert_events_spec evs s s1 E1) as [I1 [_ C1]].
+  assert (forall c, known s1 c = known s c) as K1.
+  { apply known_of_status. intros c. rewrite S1. apply stat_after_none. }
+  (* no surviving contract element was born in b *)
+  assert (forall x, In x (celems s1) -> ce_born x <> b_idx b) as NB.
+  { intros x Hx Eb. destruct (C1 x Hx) as [x0 [Hx0 [A [_ D]]]].
+    cbn [el_inv] in EI. destruct EI as [EC _]. destruct (EC x0 Hx0) as [_ [c' [Hc' [Hb [rv Hf]]]]].
+    assert (c' = b) as ->.
+    { destruct Hc' as [<-|Hc']; [reflexivity|]. pose proof (linked_heights b C L c' Hc') as Hlt.
+      rewrite D, Hb in Eb. rewrite Eb in Hlt. lia. }
+    assert (In (EFormed (ce_cid x0) rv) evs) as Hin by (apply grouped_In_iff; exact Hf).
+    apply (revert_events_formed_gone evs s s1 (ce_cid x0) rv E1 Hin (EK x0 Hx0) x Hx). exact A. }
+  destruct (cupd_revert_total b (celems s1) NB) as [ce' Ece].
+  destruct (iupd_revert_total b (filter (fun e => negb (idx_eqb (ie_idx e) (b_idx b))) (ielems s1))) as [ie' Eie].
+  { intros e He. apply filter_In in He. destruct He as [_ Q]. apply idx_eqb_neq.
+    destruct (idx_eqb (ie_idx e) (b_idx b)); [discriminate|reflexivity]. }
+  unfold revert_block. fold evs. rewrite E1. cbn [bind]. rewrite Eie. cbn [bind]. rewrite Ece. cbn [bind].
+  eexists. split; [reflexivity|]. split.
+  - intros c st. cbn [contracts]. rewrite S1. unfold stat_after.
+    destruct (alookup c (contracts s)) as [st0|] eqn:L0; [|discriminate]. intros [= <-].
+    pose proof (SI _ _ L0) as E0. cbn [cstat] in E0. fold evs in E0. rewrite E0.
+    destruct (ev_of c evs) as [e|] eqn:Q; [|reflexivity].
+    destruct (ev_of_some c evs e Q) as [He Ec]. specialize (V e He). rewrite Ec in V.
+    destruct e; cbn in *; congruence.
+  - intros x Hx. cbn [celems] in Hx.
+    destruct (cupd_revert_spec b _ _ Ece x Hx) as [x1 [Hx1 [A _]]].
+    destruct (C1 x1 Hx1) as [x0 [Hx0 [A0 _]]].
+    unfold known. cbn [contracts]. fold (known s1 (ce_cid x)). rewrite K1, A, A0. apply EK. exact Hx0.
+Qed.
